@@ -17,6 +17,7 @@ type Op struct {
 	DV     int    `json:"dv,omitempty"`     // trigger: view relative to the node's current view
 	N      int    `json:"n,omitempty"`      // burst: how many; sleep: microseconds
 	Raw    []byte `json:"raw,omitempty"`    // raw: content bytes for HandleConsensusMessage
+	Order  string `json:"order,omitempty"`  // round: delivery order of PREPREPARE (p), PREPAREs (r), COMMITs (c); 'd' = duplicates
 }
 
 type Case struct {
@@ -74,16 +75,26 @@ func Execute(c Case) *Run {
 	if _, ok := h.UpdateState(nil, nil, nil); !ok {
 		r.Inconclusive++
 	}
-	h.Settle(opDeadline)
+	unavailable := c.Cfg.CommitteeFailFirst > 1000 // the committee source never answers: the worker keeps polling and never settles
+	if unavailable {
+		time.Sleep(2 * time.Millisecond)
+	} else {
+		h.Settle(opDeadline)
+	}
 	for _, op := range c.Ops {
 		if r.Cancelled && op.K != "callcancelled" && op.K != "sleep" {
+			continue
+		}
+		if unavailable && (op.K == "round" || op.K == "settle") {
 			continue
 		}
 		r.do(op)
 	}
 	if !r.Cancelled {
 		h.Gates.ReleaseAll()
-		r.FinalSettled = h.Settle(opDeadline)
+		if !unavailable {
+			r.FinalSettled = h.Settle(opDeadline)
+		}
 		r.FinalH, r.FinalV = h.HV()
 		r.cancel()
 	}
@@ -140,7 +151,7 @@ func (r *Run) do(op Op) {
 				return ok
 			}, opDeadline, true)
 		}
-		if h.PlayRound() != nil {
+		if h.PlayRoundOrder(op.Order) != nil {
 			res, _ := h.WaitFor(func() bool { return h.NCommits() > before }, opDeadline, true)
 			rec.Settled = res != Inconclusive
 			rec.Inconclusive = res == Inconclusive
@@ -188,6 +199,8 @@ func (r *Run) do(op Op) {
 				}
 			}
 		}
+	case "flood":
+		rec.Returned = h.Flood(op.N)
 	case "release":
 		rec.Forwarded = h.Gates.Release()
 	case "settle":
